@@ -77,6 +77,20 @@ func blockingUnderLock(p *Program, r *Report, scope func(*FuncInfo) bool) int {
 							}
 						}
 					}
+				case *ast.CallExpr:
+					// the channel handed to a function of the module (go p.buildPool(host, built)): that function
+					// takes no mutex itself
+					for _, a := range v.Args {
+						if aid, ok := ast.Unparen(a).(*ast.Ident); ok && info.Uses[aid] == obj {
+							if h := p.FuncOf(calleeOf(info, v)); h != nil && h.Decl.Body != nil {
+								for _, c := range callsIn(h.Decl.Body) {
+									if _, isMu := isMutexMethod(calleeName(h.Pkg.TypesInfo, c)); isMu {
+										clean = false
+									}
+								}
+							}
+						}
+					}
 				case *ast.FuncLit:
 					uses := false
 					ast.Inspect(v.Body, func(y ast.Node) bool {
